@@ -419,6 +419,21 @@ def run(ctx):
         ok = bool(putz) and bool(aggs) and all(icb.dominates(putz[0].block, a) for a in aggs)
         r5.check(ok, "intercept-ends-with-Z", "the intercept payload is terminated with ReadyForQuery ('Z')", "the intercept payload is not terminated with ReadyForQuery")
 
+    # the configured rows are the rule's rows with ${USER} / ${DATABASE} of the session that asks: the placeholders are filled in per query, on a private
+    # copy of the configuration (round 6: filled in once at pool construction on a variable shared by the users of a pool - everybody got the first user's name)
+    SUBST = "pgcat::config::Intercept::substitute"
+    subs = list(F.all_calls(SUBST))
+    if icb is not None:
+        here = [c for c in subs if c.body is icb]
+        elsewhere = sorted({c.body.name for c in subs if c.body is not icb and "::test::" not in c.body.name})
+        ok_s = bool(here) and not elsewhere
+        if here:
+            thr_ = []
+            recv_calls = {o.call.name for o in origins(icb, here[0].args[0], taint=True, through=thr_) if o.kind == "call"} | {t_.name for t_ in thr_}
+            arg_calls = {o.call.name for a in here[0].args[1:] for o in origins(icb, a, taint=True) if o.kind == "call"}
+            ok_s = ok_s and any(n_.endswith("Clone>::clone") for n_ in recv_calls) and "pgcat::query_router::QueryRouter::pool_settings" in arg_calls
+        r5.check(ok_s, "intercept-rows-per-session", "Intercept::run fills ${USER}/${DATABASE} into a clone of the rules from the asking session's pool settings, and nobody else substitutes",
+                 "the placeholders of the intercept rules are not filled in per query on a private copy (substitute called in %s): the rows a client gets can carry another user's or pool's name" % (elsewhere or "no clone / not from the session's pool settings"))
     # ---------------- R6 a denied batch leaves no prepared statement behind
     r6 = ctx.rule("C19-R6", "when a batch is denied/intercepted, statements it prepared are forgotten: a later Bind/Execute cannot run a denied statement through the statement cache", floor=2)
     for sw in pend_sw:
